@@ -64,6 +64,29 @@ def linkIfAbsent (c : Cfg) (h t : Nat) (cond : Option Expr) : Res Cfg :=
     | .err e => .err e
     | .panic => .panic
 
+/-- `*edge = Edge::new(h, t, cond)` through `edge_mut(h, t)` -/
+def setEdgeCond (c : Cfg) (h t : Nat) (cond : Option Expr) : Cfg :=
+  { c with edges := c.edges.map (fun e => if e.head == h && e.tail == t then { e with cond := cond } else e) }
+
+/-- the successor loop (repaired: "two successors leading to the same block keep both guards"): an edge that
+    already joins the two blocks absorbs the new guard — both guarded: `Expression::or(existing, new)` unless they
+    are syntactically equal; existing guarded, new unguarded: the edge becomes unconditional; existing
+    unconditional: unchanged.  Otherwise the edge is created. -/
+def linkOrMerge (c : Cfg) (h t : Nat) (cond : Option Expr) : Res Cfg :=
+  match c.edge h t with
+  | some e =>
+    match e.cond, cond with
+    | some ex, some g =>
+      if ex ≠ g then
+        match Expr.mkBin .or ex g with
+        | .ok m => .ok (setEdgeCond c h t (some m))
+        | .err x => .err x
+        | .panic => .panic
+      else .ok c
+    | some _, none => .ok (setEdgeCond c h t none)
+    | none, _ => .ok c
+  | none => linkIfAbsent c h t cond
+
 /-- the loop over the instructions of one translation result; `be`/`bx` = `block_entry`/`block_exit`
     (both start as 0), `prev` = `previous_exit` -/
 def blockLoop : AsmState → Nat → Nat → Option Nat → List Function → Res (AsmState × Nat × Nat)
@@ -108,7 +131,7 @@ def succLoop (bx : Nat) : AsmState → List (Nat × Option Expr) → Res AsmStat
   | st, (sa, sc) :: rest =>
     match st.blockIdx.lookup sa with
     | some (be, _) =>
-      match linkIfAbsent st.cfg bx be sc with
+      match linkOrMerge st.cfg bx be sc with
       | .ok c => succLoop bx { st with cfg := c } rest
       | .err e => .err e
       | .panic => .panic
